@@ -49,6 +49,8 @@ BREAKER_PROGRAMS = [
     ("two probes race for a freed half-open slot", BCFG1, [F(0), A(2), CA(2)], [[A(2)], [A(2)]]),
     ("racing failures reach the threshold", BCFG, [F(0)], [[F(1)], [F(1)]]),
     ("racing failures from empty history (threshold 2)", BCFG, [], [[F(1)], [F(1)]]),
+    ("racing failures on a never-used breaker (threshold 1)", BCFG1, [], [[F(1)], [F(1)]]),
+    ("admission races admission on a never-used breaker", BCFG1, [], [[A(1), F(1)], [A(1), F(1)]]),
     ("probe success races probe failure", BCFG1, [F(0), A(2)], [[OK(2)], [F(2)]]),
     ("probe success races probe failure (threshold 2)", BCFG, [F(0), F(0), A(2)], [[OK(2)], [F(2)]]),
     ("probe failure races uncounted failure", BCFG1, [F(0), A(2)], [[F(2, "UNKNOWN")], [OK(2)]]),
@@ -79,6 +81,7 @@ BUDGET_PROGRAMS = [
     ("consume races remaining", UCFG, [C(0)], [[C(1)], [RM(1)]]),
     ("consume races consume while a grant ages out", UCFG, [C(0), C(0)], [[C(4)], [C(4)]]),
     ("two ops each", UCFG, [], [[C(1), RM(1)], [C(1), C(1)]]),
+    ("three consumers on a never-used budget, one token", dict(UCFG, max=1), [], [[C(1)], [C(1)], [C(1)]]),
 ]
 
 
@@ -140,12 +143,26 @@ class _Exec:
             import redress.budget as mod
             self.obj = mod.Budget(max_retries=cfg["max"], window_s=cfg["W"] * vtime.TICK)
         self.sched = Scheduler({mod.__file__})
-        # the instance's lock, whatever it is called: the attribute holding a lock-like object
+        # every lock of the component is scheduler-controlled: those it holds already (whatever the
+        # attributes are called) and any it creates later (the module's `threading` is a shim)
+        sched = self.sched
+
+        class _Threading:
+            def __getattr__(self, name):
+                return getattr(threading, name)
+
+            @staticmethod
+            def Lock():
+                return SchedLock(sched)
+
+            @staticmethod
+            def RLock():
+                return SchedLock(sched)
+        if hasattr(mod, "threading"):
+            mod.threading = _Threading()
         locks = [k for k, v in vars(self.obj).items()
                  if hasattr(v, "acquire") and hasattr(v, "release") and hasattr(v, "__enter__")]
-        if not locks:
-            raise Machinery("the component has no lock attribute to put under scheduler control")
-        self.lock_attrs = locks          # every lock of the component is scheduler-controlled
+        self.lock_attrs = locks
         for k in locks:
             setattr(self.obj, k, SchedLock(self.sched))
         self.setup_deadlock = False
